@@ -50,11 +50,11 @@ func vpCatalogue(k int) {
 	}
 }
 
-const vpArgAlpha = "a-z0-9 (+_.@{}*[-"
+const vpArgAlpha = "a-z0-9 (+_.@{}*[:-"
 
 func vpFreeArg(name string, maxLen int) string {
 	n := 1 + zzvp.Choose(maxLen)
-	s := zzvp.Str(name+"0", 1, "a-z0-9 (+_.@{}*[")
+	s := zzvp.Str(name+"0", 1, "a-z0-9 (+_.@{}*[:")
 	if n > 1 {
 		s += zzvp.Str(name+"1", n-1, vpArgAlpha)
 	}
@@ -149,6 +149,13 @@ func VP_C18_AnyCmd() {
 	zzvp.Assert(r.Exit == 0 || r.Exit == 1, "the process ends with exit status 0 or 1, never with a Go run-time panic")
 	if readOnly {
 		zzvp.Assert(zzvp.SnapEq(s0, zzvp.Snapshot(w)), "a read-only command changes nothing")
+	} else if zzvp.Param("followup", 1) == 1 {
+		// whatever state the command left (also when it was refused half-way) is a state Goit produced: the commands
+		// that read HEAD, the branches, the journal and the staging area must not crash on it
+		for _, f := range [][]string{{"status"}, {"log"}, {"reflog"}, {"branch", "--list"}, {"reset", "--soft", "HEAD@{0}"}, {"add", "."}, {"commit", "-m", "after"}} {
+			r2 := zzvp.Run(f...)
+			zzvp.Assert(r2.Exit == 0 || r2.Exit == 1, "no follow-up command crashes on the state the command left behind")
+		}
 	}
 	zzvp.Done()
 }
